@@ -170,10 +170,13 @@ Lemma spec_response_with_root c b1 d1 m1 b2 d2 m2 rq fs :
   spec_root (with_root c b1 d1 m1) = spec_root (with_root c b2 d2 m2) ->
   spec_response (with_root c b1 d1 m1) rq fs = spec_response (with_root c b2 d2 m2) rq fs.
 Proof.
-  intros E. unfold spec_response.
-  change (spec_segments (with_root c b1 d1 m1) rq) with (spec_segments (with_root c b2 d2 m2) rq).
-  destruct (spec_segments _ rq) as [[segs|]|]; try reflexivity.
-  unfold spec_tail, spec_serve. rewrite E. reflexivity.
+  intros E.
+  assert (Hcore : spec_response_core (with_root c b1 d1 m1) rq fs = spec_response_core (with_root c b2 d2 m2) rq fs).
+  { unfold spec_response_core.
+    change (spec_segments (with_root c b1 d1 m1) rq) with (spec_segments (with_root c b2 d2 m2) rq).
+    destruct (spec_segments _ rq) as [[segs|]|]; try reflexivity.
+    unfold spec_tail, spec_serve. rewrite E. reflexivity. }
+  unfold spec_response. rewrite Hcore. reflexivity.
 Qed.
 
 Theorem spec_configured s rq fs :
